@@ -312,7 +312,18 @@ class RegularPolygonPixelRegion(PolygonPixelRegion):
         self.angle = angle
 
         super().__init__(self._calc_vertices(), meta=meta, visual=visual)
+        self._calc_derived()
 
+    def __setattr__(self, name, value):
+        super().__setattr__(name, value)
+        # the vertices and the derived lengths follow the defining
+        # parameters when these are re-assigned after construction
+        if name in self._params and 'vertices' in self.__dict__:
+            self._vertices = self._calc_vertices()
+            self.vertices = self._vertices + self.origin
+            self._calc_derived()
+
+    def _calc_derived(self):
         self.side_length = 2. * self.radius * np.sin(np.pi / self.nvertices)
         self.inradius = self.radius * np.cos(np.pi / self.nvertices)
         self.perimeter = self.side_length * self.nvertices
